@@ -2,7 +2,7 @@
 from sched import *
 
 PROP = "C18"
-THEOREMS = [tuple(x) for x in json.load(open(os.path.join(VERIF, "lib", "pins", PROP + ".json")))]
+THEOREMS = ["C18", "C18Cli"]
 
 
 def probe_f14(run, har):
@@ -80,9 +80,125 @@ def flags_leg(run):
         shutil.rmtree(base, ignore_errors=True)
 
 
+def gen_cli_case(rng):
+    """a command line for n2: options in all their spellings, tools, numbers good and bad, directories that exist or not, targets"""
+    argv0 = rng.choice(["n2", "n2", "n2", "ninja", "/usr/bin/ninja", "./n2", "bin/../ninja", "ninja.exe", "x/ninja/", "..", "/"])
+    words = []
+    nums = ["1", "4", "0", "16", "+3", "007", "18446744073709551615", "18446744073709551616", "", "x", "-1", "4x", " 4", "é"]
+    dirs = ["d1", "d1/d2", "with space", ".", "d1/..", "nope", "d1/nope", ""]
+    files = ["alt.ninja", "build.ninja", "x=y", "-", "\xff.ninja", "dir/é.ninja", ""]
+    tools = ["list", "restat", "recompact", "ninja_compat", "explain", "trace", "nosuch", ""]
+    targets = ["a", "b", "out/x.o", "-", "é", "\xffraw", "a b", "=", "-j"]
+
+    def opt(letter, values):
+        v = rng.choice(values)
+        r = rng.random()
+        if r < 0.45:
+            return ["-" + letter, v]
+        if r < 0.7:
+            return ["-" + letter + v]
+        if r < 0.9:
+            return ["-" + letter + "=" + v]
+        return ["-v" + letter + v]                   # inside a cluster
+
+    for _ in range(rng.randint(0, 7)):
+        r = rng.random()
+        if r < 0.3:
+            words.append(rng.choice(targets) if rng.random() < 0.8 else rng.choice(targets))
+        elif r < 0.4:
+            words += opt("j", nums)
+        elif r < 0.5:
+            words += opt("k", nums)
+        elif r < 0.6:
+            words += opt("f", files)
+        elif r < 0.7:
+            words += opt("C", dirs)
+        elif r < 0.8:
+            words += opt(rng.choice("td"), tools)
+        elif r < 0.86:
+            words.append(rng.choice(["-v", "-vv", "-h", "--help", "--version", "--version=1", "--help=x"]))
+        elif r < 0.92:
+            words.append("--")
+        else:
+            words.append(rng.choice(["-x", "--foo", "--foo=1", "-v=1", "--", "-", "--=", "-=", "-j", "-é", "-\xff"]))
+    enc = lambda w: w.encode("latin-1") if any(ord(c) == 0xff for c in w) else w.encode("utf-8")
+    return [enc(argv0)] + [enc(w) for w in words]
+
+
+def cli_leg(run, rng, tier, har, drv):
+    """run.rs parse_args on real command lines (the harness starts itself again with them) against Model/Cli.v"""
+    import posixpath
+    cases = [[b"n2"]] + [gen_cli_case(rng) for _ in range(600 if tier == "quick" else 6000)]
+    lines = [" ".join(hexs(w) for w in c) for c in cases]
+    from concurrent.futures import ThreadPoolExecutor
+    step = (len(lines) + 11) // 12
+    parts = [lines[i:i + step] for i in range(0, len(lines), step)]
+    with ThreadPoolExecutor(max_workers=12) as ex:
+        impl = [r for part in ex.map(lambda pt: run_lines([har, "cli"], pt), parts) for r in part]
+    model = run_lines([drv, "cli"], lines)
+    default_j = None
+    m0 = re.search(r" j=(\d+) ", impl[0] + " ")
+    if m0:
+        default_j = m0.group(1)
+    bad, kinds = 0, {}
+    for c, a, m in zip(cases, impl, model):
+        where = {"suite": "cli", "argv": [w.decode("utf-8", "replace") for w in c], "implementation": a[:300], "model": m[:300]}
+        ka, km = a.split(" ")[0], m.split(" ")[0]
+        kinds[km] = kinds.get(km, 0) + 1
+        ok = False
+        if km == "panic":
+            ok = ka == "died"
+        elif km == "err":
+            ok = ka == "err"
+        elif km == "exit":
+            ok = a.startswith(m + " ")
+        elif km == "args" and ka == "args":
+            fa = dict(x.split("=", 1) for x in a.split(" ")[1:])
+            fm = dict(x.split("=", 1) for x in m.split(" ")[1:])
+            cwd = ""
+            for d in ([unhexs(x).decode("utf-8", "replace") for x in fm["chdirs"].split(",")] if fm["chdirs"] else []):
+                cwd = posixpath.normpath(posixpath.join(cwd or "/", d))
+            cwd = "" if cwd in ("", "/") else cwd
+            want_j = default_j if fm["j"] == "0" else fm["j"]
+            ok = all(fa[k] == fm[k] for k in ("compat", "adopt", "explain", "file", "targets", "k", "v", "trace")) and fa["j"] == want_j \
+                and unhexs(fa["cwd"] or "-").decode("utf-8", "replace") == cwd
+        if not ok:
+            bad += 1
+            if bad <= 4:
+                run.tie("correspondence run.rs parse_args", where)
+        # monitors on the implementation's own answers
+        if ka == "died":
+            if not (km == "panic"):
+                run.report_failure(None, "n2 aborted on the command line %r: %s" % (where["argv"], a[:120]), where)
+        elif ka == "args":
+            fa = dict(x.split("=", 1) for x in a.split(" ")[1:])
+            ws = c[1:]
+            # the canonical shape: -f FILE -C DIR -j N -k M target...
+            if len(ws) >= 8 and ws[0] == b"-f" and ws[2] == b"-C" and ws[4] == b"-j" and ws[6] == b"-k" and all(not t.startswith(b"-") for t in ws[8:]):
+                if fa["file"] != hexs(ws[1].decode("utf-8", "replace").encode()) or fa["targets"] != ",".join(hexs(t.decode("utf-8", "replace").encode()) for t in ws[8:]):
+                    run.report_failure(None, "-f / targets of %r read as file=%s targets=%s" % (where["argv"], fa["file"], fa["targets"]), where)
+    # the canonical shape, generated on purpose
+    canon = []
+    for _ in range(100):
+        canon.append([b"n2", b"-f", rng.choice([b"alt.ninja", b"x/y.ninja"]), b"-C", rng.choice([b"d1", b"d1/d2", b"."]), b"-j", str(rng.randint(1, 64)).encode(),
+                      b"-k", str(rng.randint(0, 9)).encode()] + [rng.choice([b"a", b"b", b"out/x.o"]) for _ in range(rng.randint(0, 4))])
+    clines = [" ".join(hexs(w) for w in c) for c in canon]
+    ci = run_lines([har, "cli"], clines)
+    cm = run_lines([drv, "cli"], clines)
+    for c, a, m in zip(canon, ci, cm):
+        fa = dict(x.split("=", 1) for x in a.split(" ")[1:]) if a.startswith("args ") else {}
+        if not fa or fa["file"] != hexs(c[2]) or fa["j"] != c[6].decode() or fa["k"] != c[8].decode() or fa["targets"] != ",".join(hexs(t) for t in c[9:]) \
+                or unhexs(fa["cwd"] or "-").decode() != ("" if c[4] == b"." else "/" + c[4].decode()):
+            run.report_failure(None, "%r: manifest, directory, -j, -k or targets not as given: %s" % ([w.decode() for w in c], a[:200]),
+                               {"suite": "cli", "argv": [w.decode() for w in c], "implementation": a[:300], "model": m[:300]})
+    run.coverage["command_lines"] = {"cases": len(cases) + len(canon), "disagreements": bad, "model_outcomes": kinds, "default_parallelism": default_j}
+    return bad
+
+
 def probes(run, har):
     probe_f14(run, har)
     flags_leg(run)
+    cli_leg(run, random.Random(4242), os.environ.get("VERIF_TIER_", "quick"), har, build_driver())
 
 
 def main(tier, seed, replay=None):
